@@ -28,8 +28,6 @@ func init() {
 
 // table entries: sites discharged by reading (key -> reason)
 var c12Table = map[string]string{
-	"index|ngo/verifier.verifyX509TrustedIdentities|param:certs[const:0]":     "trusted post-condition: the chain of a verified envelope is non-empty (notation-core-go validates SignerInfo); provenance of certs is rule C04/C02",
-	"index|ngo/verifier.verifyTimestamp|call:(*tspclient.SignedToken).Verify": "trusted post-condition: SignedToken.Verify returns a non-empty chain with a nil error; the site is dominated by its error gate",
 	"slice|ngo/internal/slices.Delete":                                        "generic helper: callers pass an index obtained from IndexIsser under idx >= 0 (checked at the call sites below)",
 }
 
@@ -225,6 +223,11 @@ func c12Indexes(c *Ctx) {
 					ok, why = c12IndexSafe(fi, loops, in, x, idx)
 				} else {
 					ok, why = c12SliceSafe(fi, in.(*ssa.Slice))
+				}
+				if !ok && kind == "index" {
+					if ok2, why2 := c12TrustedPost(w, fi, in, x, idx); ok2 {
+						ok, why = true, why2
+					}
 				}
 				if !ok {
 					for tk, reason := range c12Table {
@@ -835,9 +838,9 @@ func c12DecoderErrors(c *Ctx) {
 					}
 				}
 			}
-			if !used && fnName(fn) == "ngo/signer.areUnknownAttributesAdded" {
-				// table: second decode of bytes that already decoded successfully into the struct; a failure leaves the maps empty, which reports no unknown field only for content that the first decode accepted
-				c.OK(key, rule+" (table: re-decode of content that already decoded successfully)", w.InstrPos(call))
+			if !used && c12Redecode(w, fn, call) {
+				// second decode of bytes that already decoded successfully at every call site; a failure leaves the maps empty, which reports no unknown field only for content that the first decode accepted
+				c.OK(key, rule+" (re-decode of bytes whose json.Unmarshal already succeeded at every call site)", w.InstrPos(call))
 				continue
 			}
 			c.Check(used, key, rule, w.InstrPos(call), "the error of "+calleeName(call)+" is discarded")
@@ -846,4 +849,73 @@ func c12DecoderErrors(c *Ctx) {
 	if n < 12 {
 		c.Unk("decoder-error#count", "vacuity guard: decoder call sites", "-", fmt.Sprintf("%d found", n))
 	}
+}
+
+// c12TrustedPost: element 0 of a certificate chain that a trusted dependency guarantees to be non-empty.
+//   - the chain returned by (*tspclient.SignedToken).Verify, on a path where its error is nil;
+//   - a []*x509.Certificate parameter of a module function all of whose callers pass the
+//     SignerInfo.CertificateChain of an envelope content (Envelope.Verify rejects an empty chain).
+func c12TrustedPost(w *World, fi *FnInfo, in ssa.Instruction, x, idx ssa.Value) (bool, string) {
+	k, ok := idx.(*ssa.Const)
+	if !ok || k.Value == nil || k.Int64() != 0 {
+		return false, ""
+	}
+	xd := desc(x)
+	if strings.HasPrefix(xd, "call:(*tspclient.SignedToken).Verify(") && strings.HasSuffix(xd, "#0") {
+		if labelHas(fi.GuardsOf(in), "EQ("+strings.TrimSuffix(xd, "#0")+"#err,nil)") {
+			return true, "trusted post-condition: SignedToken.Verify returns a non-empty chain with a nil error; the site is dominated by its error gate"
+		}
+	}
+	if p, ok := x.(*ssa.Parameter); ok && strings.HasSuffix(p.Type().String(), "[]*crypto/x509.Certificate") {
+		fn := fi.Fn
+		n := 0
+		for _, g := range w.Funcs {
+			for _, ci := range allCalls(g) {
+				if staticCallee(ci) != fn {
+					continue
+				}
+				n++
+				for i, q := range fn.Params {
+					if q == p && !strings.HasSuffix(desc(ci.Common().Args[i]), ".EnvelopeContent.SignerInfo.CertificateChain") {
+						return false, ""
+					}
+				}
+			}
+		}
+		if n > 0 {
+			return true, "trusted post-condition: every caller passes the certificate chain of a verified envelope content, which notation-core-go guarantees to be non-empty"
+		}
+	}
+	return false, ""
+}
+
+// c12Redecode: the decoder reads a []byte parameter of a module function every caller of which
+// reaches the call only after a json.Unmarshal of the very same bytes returned nil.
+func c12Redecode(w *World, fn *ssa.Function, call ssa.CallInstruction) bool {
+	if calleeName(call) != "encoding/json.Unmarshal" {
+		return false
+	}
+	p, ok := call.Common().Args[0].(*ssa.Parameter)
+	if !ok {
+		return false
+	}
+	n := 0
+	for _, g := range w.Funcs {
+		for _, ci := range allCalls(g) {
+			if staticCallee(ci) != fn {
+				continue
+			}
+			n++
+			for i, q := range fn.Params {
+				if q != p {
+					continue
+				}
+				guards := w.Info(g).GuardsOf(ci)
+				if _, ok := hasLabel(guards, "EQ(call:encoding/json.Unmarshal("+desc(ci.Common().Args[i])+",", "#err,nil)"); !ok {
+					return false
+				}
+			}
+		}
+	}
+	return n > 0
 }
